@@ -116,6 +116,52 @@ def hit_ascii(rng, reg):
     return a.ljust(32, rng.choice([b' ', b'\0']))[:32]
 
 
+def check_description_only(ck, rng, n):
+    """whatever a callout parser module answers ends up under "Description" and NOWHERE else: the members decoded from the callout's own bytes
+    (priority, location code, part number / procedure, CCIN, serial number, PCE, MRU ids) are the same with a module that answers with a JSON
+    object carrying those very member names as without any module.  (Real code on both sides; the model's parsers answer with lines only.)"""
+    obj = {'Priority': 'Low', 'Location Code': 'Ufake', 'Procedure': 'FAKE', 'Part Number': 'FAKE', 'CCIN': 'XXXX', 'Serial Number': 'FAKE', 'Callout Count': 99,
+           'FRU Type': 'fake', 'Description': ['nested'], 'MRUs': 'fake', 'PCE': 'fake'}
+    env = apel.PluginEnv(allow=True, callout={'z': ('object', obj)}).install()
+    try:
+        for _ in range(n):
+            x = apel.gen_src(rng)
+            if not x['callouts'] or not x['callouts']['callouts']:
+                continue
+            for c in x['callouts']['callouts']:
+                if c['fru']['flags'] & 0x02:
+                    c['fru']['pn'] = rng.choice([b'PROC0001', b'BMC0001\0', b'PROCXYZ1'])
+            docs = {}
+            for cr in 'zq':
+                p = apel.gen_pel(rng, max_sections=0)
+                p['ph']['creator'] = ord(cr)
+                p['sections'] = [{'kind': 'src', 'hdr': dict(apel.gen_hdr(rng), comp=0x1234), 'primary': True, 'src': x}]
+                r = apel.real_decode(apel.enc_pel(p))
+                docs[cr] = r
+            ck.case(key=('description-only', json.dumps(x, default=repr)[:2000]))
+            ck.count('callout parser answering with an object')
+            def callouts(r):
+                if r[0] != 'doc':
+                    return ('no document', str(r[:3])[:100])
+                src = dict(r[2][1]).get('Primary SRC')
+                sec = dict(src[1]).get('Callout Section') if src else None
+                if sec is None:
+                    return None
+                out = []
+                for k, v in sec[1]:
+                    if k == 'Callouts':
+                        out.append((k, [[kv for kv in c[1] if kv[0] != 'Description'] for c in v]))
+                    else:
+                        out.append((k, v))
+                return out
+            if callouts(docs['z']) != callouts(docs['q']):
+                ck.fail('what a callout parser module answers changed callout members other than "Description"',
+                        {'op': 'callout-object', 'plugins': 'calloutparsers.zcallouts answers every procedure with ' + json.dumps(obj)[:200], 'with_module': str(callouts(docs['z']))[:400], 'without_module': str(callouts(docs['q']))[:400]},
+                        'description_only')
+    finally:
+        env.uninstall()
+
+
 def run(tier, seed):
     ck = Check('C03', tier, seed)
     ck.proof = common.build_and_audit('C03', thorough=(tier == 'thorough'))
@@ -188,6 +234,7 @@ def run(tier, seed):
     for k in combos:
         del ck.dist[k]
     ck.dist['distinct (FRU flags, PCE, MRU count) combinations exercised'] = len(combos)
+    check_description_only(ck, rng, 120 if thorough else 40)
     return ck.finish(RULE, TRUSTED, ASSUME)
 
 
